@@ -1,4 +1,5 @@
 import SdnsVerif.Model.Nsec
+import SdnsVerif.Model.Nsec3
 /-
 Decision-logic model of where a validated denial may become SHARED state:
 
@@ -13,7 +14,7 @@ Decision-logic model of where a validated denial may become SHARED state:
 Core Lean only.
 -/
 namespace SdnsVerif.Model.Admission
-open SdnsVerif.Model.Nsec
+open SdnsVerif.Spec.Zone SdnsVerif.Model.Nsec
 
 /-! ### cache.ResponseWriter.WriteMsg -/
 
@@ -105,6 +106,62 @@ def authority (fam : Family) (exact : Except Err Bool) (agg : Except Err Rcode) 
       | .ok rc => (rc == Rcode.nxdomain) == respNX
       | .error _ => false)
     { servfail := false, ad := secure, marked := secure, aggressive := secure && eligible }
+
+/-! ### Resolver.authority end to end: from the upstream response to (error | AD, provenance) -/
+
+/-- one negative upstream response (empty answer section) from a zone whose DS
+the resolver holds, as `Resolver.authority` sees it. -/
+structure AuthIn where
+  signer : Name                       -- the RRSIGs' signer name = the zone authority() validates under
+  q : Name
+  t : Nat
+  nx : Bool                           -- RCODE is NXDOMAIN (else NOERROR with an empty answer)
+  reqCD : Bool                        -- the request had CD=1
+  signed : Bool                       -- some RRSIG of a record in the section names `signer` (findRRSIGSigners)
+  sigsGood : Bool                     -- every in-zone RRset of the section carries an RRSIG that verifies
+  nsec : List Nsec                    -- the NSEC records of the authority section, as sent
+  nsec3 : List SdnsVerif.Model.Nsec3.Nsec3   -- the NSEC3 records of the authority section, as sent
+
+def authServfail : AuthOut := { servfail := true, ad := false, marked := false, aggressive := false }
+def authPassed : AuthOut := { servfail := false, ad := false, marked := false, aggressive := false }
+
+/-- the records authority() hands to the validators: `FilterRRsToZone(resp.Ns, chosenSigner)`. -/
+def authNsec3Set (i : AuthIn) : List SdnsVerif.Model.Nsec3.Nsec3 := i.nsec3.filter fun r => nameInZone r.owner i.signer
+def authNsecSet (i : AuthIn) : List Nsec := filterToZone i.signer i.nsec
+
+/-- verdict of the exact validator authority() picks: NSEC3 records take
+precedence; no denial record at all is `ErrNSECMissingCoverage`. -/
+def authExact (H : SdnsVerif.Model.Nsec3.HashFn) (i : AuthIn) : Except Err Bool :=
+  if !(authNsec3Set i).isEmpty then
+    (if i.nx then SdnsVerif.Model.Nsec3.verifyNameError H (authNsec3Set i) i.signer i.q 1
+     else SdnsVerif.Model.Nsec3.verifyNODATA H (authNsec3Set i) i.signer i.q i.t 1)
+  else if !(authNsecSet i).isEmpty then
+    match (if i.nx then verifyNameErrorNSEC i.q (authNsecSet i) else verifyNODATANSEC i.q i.t (authNsecSet i)) with
+    | .ok _ => .ok true
+    | .error e => .error e
+  else .error .missing
+
+def authFamily (i : AuthIn) : Family := if !(authNsec3Set i).isEmpty then .nsec3 else .nsec
+
+def authAgg (H : SdnsVerif.Model.Nsec3.HashFn) (i : AuthIn) : Except Err Rcode :=
+  match (if !(authNsec3Set i).isEmpty then SdnsVerif.Model.Nsec3.evaluateAggressiveNSEC3 H i.q i.t 1 i.signer (authNsec3Set i)
+         else evaluateAggressiveNSEC i.q i.t 1 i.signer (authNsecSet i)) with
+  | .ok (rc, _) => .ok rc
+  | .error e => .error e
+
+/-- `Resolver.authority` on such a response. CD=1 skips validation (the response
+travels on without AD and without provenance); so does the response to an RRSIG
+question (verifyDNSSEC returns "not verified, no error" for it); a signer that is not an
+ancestor-or-self of the question (`ValidateSigner`), missing or failing RRSIGs
+are errors; otherwise the exact validator decides and the RFC 8198 evaluator
+only adds the `Aggressive` flag. -/
+def authorityStep (H : SdnsVerif.Model.Nsec3.HashFn) (i : AuthIn) : AuthOut :=
+  if i.reqCD then authPassed else
+  if !i.signed then authServfail else                      -- secure zone, no signer: ErrNoSignatures
+  if !nameInZone i.q i.signer then authServfail else       -- ValidateSigner
+  if i.t == 46 then authPassed else                        -- verifyDNSSEC: "we don't need to verify rrsig questions"
+  if !i.sigsGood then authServfail else
+  authority (authFamily i) (authExact H i) (authAgg H i) i.nx false
 
 /-! ### synthesis side -/
 
